@@ -17,6 +17,7 @@ package redis
 import (
 	"bytes"
 	"strconv"
+	"strings"
 )
 
 type RespType byte
@@ -89,7 +90,12 @@ func (r *RespValue) Equal(that *RespValue) bool {
 	return true
 }
 
+// errTextSanitizer replaces CR and LF: an error reply is a single line, and
+// the text may contain bytes chosen by the client (e.g. the command name).
+var errTextSanitizer = strings.NewReplacer("\r", " ", "\n", " ")
+
 func newError(s string) *RespValue {
+	s = errTextSanitizer.Replace(s)
 	return &RespValue{
 		Type: Error,
 		Text: []byte(s),
